@@ -209,6 +209,9 @@ thread_local! {
 pub struct CapProgram {
     pub streams: usize,
     pub ops: Vec<CapOp>,
+    /// scheduler yields before the response heads are sent (the streams are accepted, their send halves not started)
+    #[serde(default)]
+    pub start_delay: usize,
 }
 
 #[derive(Clone, Debug, Serialize, Deserialize)]
@@ -1323,6 +1326,7 @@ async fn server_main(io: Io, case: Rc<PairCase>, ctx: Ctx, cmds: Rc<RefCell<CmdQ
 
 /// The send-capacity program: one task, sequential operations over several response streams.
 async fn cap_app(prog: CapProgram, handles: Vec<server::SendResponse<SegBuf>>, log: Log) {
+    yield_n(prog.start_delay).await;
     let mut streams: Vec<Option<SendStream<SegBuf>>> = Vec::new();
     let mut sids: Vec<u32> = Vec::new();
     let mut offs: Vec<u64> = Vec::new();
